@@ -96,6 +96,8 @@ fn run(args: &[String], tier: &str) -> i32 {
                 "C05" => realparts::c05_real(&v, n, common::seed()),
                 "C06" => realparts::c06_real(&v, n, common::seed()),
                 "C14" => realparts::c14_real(&v, n, common::seed()),
+                "C10" => realparts::c10_real(&v, n > 8),
+                "C16" => realparts::c16_real(&v, n, common::seed()),
                 _ => realparts::c07_real(&v, n, common::seed()),
             };
             println!("{}", serde_json::to_string_pretty(&st.to_json()).unwrap());
